@@ -354,13 +354,19 @@ def c20():
     def f5(x: Heavy[10]):
         return ["heavy"]
 
-    for g in (f, f2, f3, f4, f5):
+    def f6(x: int, y: Heavy[10] | Heavy[100]):
+        return ["int,heavy-union"]
+
+    def f7(x: str, y: Heavy[10] & Heavy[5]):
+        return ["str,heavy-inter"]
+
+    for g in (f, f2, f3, f4, f5, f6, f7):
         o.register(g)
 
     class BW(B):
         w = 50
 
-    probes = [(A(),), (B(),), (E(),), (1, B()), (1,), (BW(),)]
+    probes = [(A(),), (B(),), (E(),), (1, B()), (1,), (BW(),), (1, BW()), ("s", BW())]
     for p in probes:
         outcome(o, *p)
     import inspect
